@@ -1167,6 +1167,14 @@ static int op_ld_st_imm(
     else
   {
     shift = opcode >> 30;
+
+    // ldr / str of an x register is the 64 bit form: size 3, offset in
+    // units of 8.
+    if (operands[0].type == OPERAND_REG_64 && shift == 2)
+    {
+      size = 1;
+      shift = 3;
+    }
   }
 
   if (check_range(asm_context, "offset", offset, 0, 0xfff << shift) != 0)
